@@ -496,6 +496,49 @@ def rule_count(ctx):
     return res.finish(5)
 
 
+def rule_roles(ctx):
+    """`prediction.confusion_matrix(ground_truth)`: the receiver is the prediction in every impl.  The impls for datasets
+    and for owned arrays forward to the one that fills the matrix; a forwarding impl that hands its receiver on as the
+    argument (and its argument as the receiver) builds the transposed matrix - accuracy and MCC do not notice, precision
+    and recall are exchanged."""
+    res = RuleResult("R-C05-roles", "every forwarding impl of ToConfusionMatrix keeps the roles: its receiver stays the receiver (the prediction), its argument stays the argument (the ground truth)")
+    F = ctx.facts()
+    n = 0
+    for fn in F.all_fns():
+        d = fn["d"]
+        if d["krate"] != "linfa" or d["name"] != "confusion_matrix" or not (d.get("trait") or "").endswith("ToConfusionMatrix") or d.get("pk") == "trait":
+            continue
+        if any(y.get("k") == "AssignOp" for y in walk(fn["body"])):
+            continue                # the impl that fills the matrix
+        c = fn["crate"]
+        r = Render(c)
+        ps = [b for p_ in fn["params"] for b in pat_bindings(p_)]
+        if len(ps) != 2:
+            continue
+        gt = ps[1]["local"]
+        call = next((y for y in walk(fn["body"]) if y.get("k") == "MethodCall" and y["name"] == "confusion_matrix" and len(y["args"]) == 1), None)
+        n += 1
+        key = "%s[%s]" % (fn_key(fn), (fn["inputs"][0] if fn.get("inputs") else "")[-40:].replace(" ", ""))
+        res.instance(key)
+        if call is None:
+            res.undecided("%s : forwarding" % key, "no inner confusion_matrix call (fail closed)", fn_loc(fn))
+            continue
+
+        def uses(e, what):
+            return any(z.get("k") == "Path" and ((what == "self" and z.get("name") == "self") or (what == "gt" and z.get("local") == gt)) for z in walk(e))
+        rs, rg = uses(call["recv"], "self"), uses(call["recv"], "gt")
+        as_, ag = uses(call["args"][0], "self"), uses(call["args"][0], "gt")
+        if rs and not rg and ag and not as_:
+            res.ok()
+        elif rg and not rs and as_ and not ag:
+            res.violate("%s : forwarding-swaps-prediction-and-truth" % key, "the impl forwards as `%s`: its receiver (the prediction) becomes the ground truth and its argument the prediction, so this call builds the transpose of what the other impls build" % r.e(call)[:60], fn_loc(fn, call.get("ln")))
+        else:
+            res.undecided("%s : forwarding-roles" % key, "`%s` (fail closed)" % r.e(call)[:60], fn_loc(fn, call.get("ln")))
+    if n < 3:
+        res.missing_anchor("forwarding impls of ToConfusionMatrix (found %d)" % n)
+    return res.finish(3)
+
+
 FULL_SORTS = {"sort", "sort_by", "sort_unstable", "sort_unstable_by", "sort_by_key", "sort_unstable_by_key", "sort_by_cached_key"}
 PARTIAL_ORDERS = {"select_nth_unstable", "select_nth_unstable_by", "select_nth_unstable_by_key", "partition_point", "partition"}
 
@@ -575,4 +618,4 @@ def rule_twice(ctx):
 def rules(tier):
     from . import c02
     # the class list of a confusion matrix over a dataset is the key set of its label-count cache: shared with C02
-    return [rule_delegate, rule_degree, rule_orient, rule_count, rule_median, rule_twice, c02.rule_counted]
+    return [rule_delegate, rule_degree, rule_orient, rule_roles, rule_count, rule_median, rule_twice, c02.rule_counted]
